@@ -73,6 +73,21 @@ fn replay(a: &Args) {
 fn one_run(run: u64, si: usize, s: &Value, kind: &str, ms: &[usize], rng: &mut impl Rng, out: &mut Out) {
     let ops = s["ops"].as_array().unwrap();
     let ninst = s["sets"].as_array().unwrap().len();
+    // composite kinds: "pmh3+3a" (instances alternate between ProbMinHash3 and 3a, same tables),
+    // "<kind>@scale" (odd instances get all weights multiplied by a power of two, same tables),
+    // suffix "!tiny" / "!huge": weights near the ends of the f64 range
+    let full_kind = kind;
+    let (kind, wmode) = match full_kind.split_once('!') {
+        Some((k, w)) => (k, w),
+        None => (full_kind, ""),
+    };
+    let (kind, kind2, scaled) = if kind == "pmh3+3a" {
+        ("pmh3", Some("pmh3a"), false)
+    } else if let Some(k) = kind.strip_suffix("@scale") {
+        (k, Some(k), true)
+    } else {
+        (kind, None, false)
+    };
     let is_pmh = kind.starts_with("pmh");
     let mut m = ms[rng.random_range(0..ms.len())];
     if is_pmh && m < 2 {
@@ -103,6 +118,18 @@ fn one_run(run: u64, si: usize, s: &Value, kind: &str, ms: &[usize], rng: &mut i
     };
     classes.push(mk(t1));
     let mut pc: Vec<usize> = vec![1; ninst];
+    let mut wscale = 1.0f64;
+    if let Some(k2) = kind2 {
+        let mut c2 = mk(t1);
+        c2.kind = k2.to_string();
+        classes.push(c2);
+        for (i, c) in pc.iter_mut().enumerate() {
+            *c = 1 + i % 2;
+        }
+        if scaled {
+            wscale = (2.0f64).powi(rng.random_range(-60..=60));
+        }
+    }
     if kind.starts_with("ss_") && has_merge && ninst > 1 && rng.random_range(0..4) == 0 {
         let mut t2 = t1;
         match rng.random_range(0..3) {
@@ -118,7 +145,12 @@ fn one_run(run: u64, si: usize, s: &Value, kind: &str, ms: &[usize], rng: &mut i
     let wstyle = rng.random_range(0..5);
     let mut items: Vec<Item> = Vec::new();
     for n in 0..nitems {
-        let mut it = Item { id: fresh_id(idstyle, n + 1, rng), w: if is_pmh { weight(wstyle, rng) } else { 1.0 } };
+        let w = match wmode {
+            "tiny" => 10f64.powf(rng.random_range(-307.6..-290.0)),
+            "huge" => 10f64.powf(rng.random_range(280.0..300.0)),
+            _ => weight(wstyle, rng),
+        };
+        let mut it = Item { id: fresh_id(idstyle, n + 1, rng), w: if is_pmh { w } else { 1.0 } };
         while it.id == INITOBJ || items.iter().any(|o: &Item| o.id == it.id) {
             it.id = rng.random::<u64>();
         }
@@ -133,9 +165,10 @@ fn one_run(run: u64, si: usize, s: &Value, kind: &str, ms: &[usize], rng: &mut i
         let mut st: HashMap<u64, usize> = HashMap::new();
         let mut hs = false;
         let mut coll = false;
-        for c in &classes {
+        for (ci, c) in classes.iter().enumerate() {
             let mut per: Vec<Vec<u128>> = Vec::new();
-            for (n, it) in items.iter().enumerate() {
+            for (n, it0) in items.iter().enumerate() {
+                let it = &Item { id: it0.id, w: if ci == 1 { it0.w * wscale } else { it0.w } };
                 let mut sk = make(c);
                 sk.sketch(it);
                 per.push(sk.regs());
@@ -155,7 +188,10 @@ fn one_run(run: u64, si: usize, s: &Value, kind: &str, ms: &[usize], rng: &mut i
         (tb, st, hs, coll)
     });
     match measured {
-        Ok((tb, st, hs, coll)) => {
+        Ok((mut tb, st, hs, coll)) => {
+            if kind2.is_some() {
+                tb[1] = tb[0].clone(); // the property: same signature as class 1, so class 1's tables are the reference
+            }
             tables = tb;
             stored = st;
             has_sig = hs;
@@ -171,6 +207,7 @@ fn one_run(run: u64, si: usize, s: &Value, kind: &str, ms: &[usize], rng: &mut i
         }
     }
     let mut insts: Vec<Box<dyn Sk>> = pc.iter().map(|c| make(&classes[*c - 1])).collect();
+    let citem = |it: &Item, c: usize| -> Item { Item { id: it.id, w: if c == 2 && kind2.is_some() { it.w * wscale } else { it.w } } };
     let public = insts[0].regs_public();
     let raw = kind.starts_with("ss_");
     let mut evs: Vec<RawEvent> = Vec::new();
@@ -197,7 +234,7 @@ fn one_run(run: u64, si: usize, s: &Value, kind: &str, ms: &[usize], rng: &mut i
             "sk" => {
                 let x = op[2].as_u64().unwrap() as usize;
                 ev["x"] = json!(x);
-                insts[i - 1].sketch(&items[x - 1])
+                insts[i - 1].sketch(&citem(&items[x - 1], pc[i - 1]))
             }
             "sl" => {
                 let xs: Vec<usize> = op[2].as_array().unwrap().iter().map(|x| x.as_u64().unwrap() as usize).collect();
@@ -205,7 +242,7 @@ fn one_run(run: u64, si: usize, s: &Value, kind: &str, ms: &[usize], rng: &mut i
                 let ents = insts[i - 1].entries();
                 let e = ents[rng.random_range(0..ents.len())];
                 ev["entry"] = json!(e);
-                let its: Vec<Item> = xs.iter().map(|x| items[*x - 1]).collect();
+                let its: Vec<Item> = xs.iter().map(|x| citem(&items[*x - 1], pc[i - 1])).collect();
                 insts[i - 1].batch(&its, e)
             }
             "mg" => {
@@ -278,6 +315,7 @@ fn one_run(run: u64, si: usize, s: &Value, kind: &str, ms: &[usize], rng: &mut i
     let tb: Vec<Vec<Vec<i64>>> = tables.iter().map(|c| c.iter().map(|t| t.iter().map(&rk).collect()).collect()).collect();
     out.line(&json!({"op": "new", "run": run, "sched": si, "cfg": classes.iter().map(|c| c.json()).collect::<Vec<_>>(), "m": m, "ninst": ninst, "pc": pc,
         "dir": if is_min(kind) {"min"} else {"max"}, "pub": public, "sig": has_sig, "raw": raw, "init": rk(&initk), "tables": tb,
+        "fullkind": full_kind, "wscale_log2": wscale.log2(), "minw": items.iter().map(|i| i.w).fold(f64::INFINITY, f64::min),
         "items": items.iter().map(|i| json!([i.id.to_string(), i.w])).collect::<Vec<_>>()}));
     for e in evs {
         let mut v = e.v;
